@@ -37,3 +37,10 @@ package jsonapi
 //@ flag assumed
 //@ modifies new[url.URL]
 //@ ensures ok: result1 == nil ==> result0 != nil && fresh(result0)
+
+// Reading a request body: produces bytes (or an error), advances the reader's
+// own state, writes nothing else that the package can observe.
+//@ func ioutil.ReadAll
+//@ flag assumed
+//@ modifies $rh, new[uint8]
+//@ ensures fresh: fresh(result0)
